@@ -88,7 +88,8 @@ class C02(Check):
               "`element.required <= available` for that element, and that branch extends `available` by element.provided",
         "R2": "no silent exit: every exit of the resolution loop other than 'queue empty' is a raise of the circular-dependency error",
         "R3": "bounded loop: every iteration path increments the counter and passes the `counter > cap -> raise` test",
-        "R4": "cap adequacy: cap(n) >= n(n+1)/2 for all n >= 0 (worst-case pops of FIFO resolution of an acyclic graph)",
+        "R4": "cap adequacy: cap(n) >= n(n+1)/2 for all n >= 0 (worst-case pops of FIFO resolution of an acyclic graph); a data-dependent "
+              "fan-in term max(len(x.required) ...) is a second symbol d, and the bound must already hold at d = 1 (a chain)",
         "R5": "missing-name check first: a raise of the missing-dependency error with payload "
               "sorted(required - (available U all provided)) per element dominates the loop",
         "R6": "no handler on the call chains from public queries to the sorter swallows the two errors",
@@ -294,6 +295,8 @@ class C02(Check):
             if isinstance(s, ast.Assign) and len(s.targets) == 1 and isinstance(s.targets[0], ast.Name):
                 defs.setdefault(s.targets[0].id, s.value)
         elements_param = [a.arg for a in sorter.args.args]
+        fanin = sympy.Symbol("d", integer=True, nonnegative=True)
+        fanin_used: list[str] = []
 
         def conv(e: ast.expr, depth=0):
             if depth > 5:
@@ -316,6 +319,18 @@ class C02(Check):
                     return ops[type(e.op)]
             if isinstance(e, ast.Call) and isinstance(e.func, ast.Name) and e.func.id == "max" and len(e.args) == 2:
                 return sympy.Max(conv(e.args[0], depth + 1), conv(e.args[1], depth + 1))
+            # a data-dependent fan-in term: max(len(x.required) for x in elements, default=c) -- the largest number of names one
+            # element asks for.  It is independent of n: a chain has fan-in 1 whatever its length.
+            if isinstance(e, ast.Call) and isinstance(e.func, ast.Name) and e.func.id == "max" and len(e.args) == 1 \
+                    and isinstance(e.args[0], (ast.GeneratorExp, ast.ListComp)) and len(e.args[0].generators) == 1 \
+                    and isinstance(e.args[0].generators[0].iter, ast.Name) and e.args[0].generators[0].iter.id in elements_param \
+                    and not e.args[0].generators[0].ifs \
+                    and isinstance(e.args[0].elt, ast.Call) and isinstance(e.args[0].elt.func, ast.Name) and e.args[0].elt.func.id == "len" \
+                    and isinstance(e.args[0].elt.args[0], ast.Attribute) and isinstance(e.args[0].elt.args[0].value, ast.Name) \
+                    and e.args[0].elt.args[0].value.id == e.args[0].generators[0].target.id \
+                    and e.args[0].elt.args[0].attr == "required":
+                fanin_used.append(norm(e))
+                return fanin
             raise AnalysisError(f"cap expression `{norm(e)}` not convertible to a polynomial in len(elements)")
 
         try:
@@ -323,6 +338,26 @@ class C02(Check):
         except AnalysisError as e:
             self.undecided_ob("R4", MOD, q, f"cap {norm(cap_expr)}", cap_expr, str(e))
             return
+        if fanin_used:
+            # necessary condition: the cap must admit the reverse-declared chain, whose fan-in is 1 at every length
+            at1 = cap.subs(fanin, 1) if getattr(self, "cap_strict", True) else cap.subs(fanin, 1) - 1
+            badk = next((k for k in range(0, 60) if sympy.simplify((at1 - n * (n + 1) / 2).subs(n, k)) < 0), None)
+            if badk is not None:
+                self.violated(
+                    "R4", MOD, q, "cap-vs-n(n+1)/2", cap_expr,
+                    f"iteration cap `{norm(cap_expr)}` = {cap} with d = `{fanin_used[0]}`; a chain of one-argument elements has d = 1 at "
+                    f"every length, the cap is then {sympy.expand(cap.subs(fanin, 1))}, fewer pops than the n(n+1)/2 that FIFO resolution of "
+                    f"the chain declared in reverse order needs (n = {badk}): a legal graph is rejected as circular",
+                    witness=f"a chain of {badk} one-argument derived quantities declared in reverse dependency order raises CircularDependencyError",
+                )
+                return
+            # adequate for chains; for larger fan-in the same bound n(n+1)/2 applies, so the cap must not shrink as d grows
+            for dv in (2, 3, 5, 10, 50):
+                if any(sympy.simplify((cap.subs(fanin, dv) - (0 if getattr(self, "cap_strict", True) else 1) - n * (n + 1) / 2).subs(n, k)) < 0 for k in range(0, 60)):
+                    self.undecided_ob("R4", MOD, q, f"cap {norm(cap_expr)}", cap_expr,
+                                      f"the cap depends on the data-dependent fan-in d and is below n(n+1)/2 for d = {dv}; whether graphs of that fan-in need the full bound is not modelled")
+                    return
+            cap = cap.subs(fanin, 1)
         need = n * (n + 1) / 2
         # with `counter > cap` the loop tolerates cap pops; with `>=` only cap-1
         allowed = cap if getattr(self, "cap_strict", True) else cap - 1
@@ -744,6 +779,8 @@ class C02(Check):
             Variant("early-return-for-single-element", MOD, S, "    order = []\n", "    if len(elements) < 2:\n        return [dependency.name for dependency in elements]\n    order = []\n", expect="R1|", quick=True),
             Variant("drop-sortable-check", MOD, S, "    _check_if_is_sortable(available, elements)\n", "", expect="R5|", quick=True),
             Variant("cap-linear", MOD, S, "max_iterations = len(elements) ** 2", "max_iterations = len(elements)", expect="R4|", quick=True),
+            Variant("cap-linear-in-fan-in", MOD, S, "max_iterations = len(elements) ** 2",
+                    "max_iterations = len(elements) * (2 + max((len(dep.required) for dep in elements), default=0))", expect="R4|"),
             Variant("cap-half-square", MOD, S, "max_iterations = len(elements) ** 2", "max_iterations = len(elements) ** 2 // 2", expect="R4|"),
             Variant("no-available-update", MOD, S, "            available.update(dependency.provided)\n", "", expect="R1|"),
             Variant("counter-only-on-retry", MOD, S,
